@@ -21,6 +21,13 @@ fn arg_exprs() -> Vec<(&'static str, &'static str)> {
         ("1", "int"), ("2u", "uint"), ("1.5", "dbl"), ("'s'", "str"), ("b'b'", "bytes"), ("true", "bool"), ("[1]", "list"),
         ("null", "null"), ("{1: 2}", "map"), ("vdur", "dur"), ("vts", "ts"), ("foo", "ident-undeclared"), ("vi", "ident"),
         ("(1 / 0)", "error"),
+        // long values (what an error message about a wrongly typed argument has to render)
+        ("'aaaaaaaaaaaaaaaaaaaaaaaaaaaaaaaaaaaaaaaaaaaaaaaaaaaaaaaaaaaaaaaaaaaaaaaaaaaaaaaaaaaaaaaaaaaaaaaaaaaaaaaaaaaaaaaaaaaaaaaaaaaaaaaaaaaaaaaaaaaaaaaaaaaaaaaaaaaaaaaaaaaa'", "str-long"),
+        ("'日本語日本語日本語日本語日本語日本語日本語日本語日本語日本語日本語日本語日本語日本語日本語日本語日本語日本語日本語日本語'", "str-long-cjk"),
+        ("'a日本語日本語日本語日本語日本語日本語日本語日本語日本語日本語日本語日本語日本語日本語日本語日本語日本語日本語日本語日本語'", "str-long-cjk1"),
+        ("'ab日本語日本語日本語日本語日本語日本語日本語日本語日本語日本語日本語日本語日本語日本語日本語日本語日本語日本語日本語日本語'", "str-long-cjk2"),
+        ("['é😀é😀é😀é😀é😀é😀é😀é😀é😀é😀é😀é😀é😀é😀é😀é😀é😀é😀é😀é😀é😀é😀é😀é😀é😀é😀é😀é😀é😀é😀é😀é😀', 1, 'ééééééééééééééééééééééééééééééééééééééééééééééééééééééééééééééééééééééé']", "list-long"),
+        ("b'\\xff\\xfe\\xfd\\xfc\\xfb\\xfa\\xff\\xfe\\xfd\\xfc\\xfb\\xfa\\xff\\xfe\\xfd\\xfc\\xfb\\xfa\\xff\\xfe\\xfd\\xfc\\xfb\\xfa\\xff\\xfe\\xfd\\xfc\\xfb\\xfa\\xff\\xfe\\xfd\\xfc\\xfb\\xfa\\xff\\xfe\\xfd\\xfc\\xfb\\xfa'", "bytes-long"),
     ]
 }
 
